@@ -36,6 +36,41 @@ func arithmaticHelperi(equation func(int, int) int) KeyBuilderFunction {
 	})
 }
 
+// Like arithmaticHelperi, but for operations that are undefined for a zero right-hand
+// operand (division, modulo): yields ErrorValue instead of evaluating them
+func arithmaticHelperiNonZero(equation func(int, int) int) KeyBuilderFunction {
+	return KeyBuilderFunction(func(args []KeyBuilderStage) (KeyBuilderStage, error) {
+		if len(args) < 2 {
+			return stageErrArgRange(args, "2+")
+		}
+
+		typedArgs, tOk := mapTypedArgs(args, typedParserInt)
+		if !tOk {
+			return stageError(ErrNum)
+		}
+
+		return KeyBuilderStage(func(context KeyBuilderContext) string {
+			final, ok := typedArgs[0](context)
+			if !ok {
+				return ErrorNum
+			}
+
+			for i := 1; i < len(args); i++ {
+				val, ok := typedArgs[i](context)
+				if !ok {
+					return ErrorNum
+				}
+				if val == 0 {
+					return ErrorValue
+				}
+				final = equation(final, val)
+			}
+
+			return strconv.Itoa(final)
+		}), nil
+	})
+}
+
 // Simple helper that will take 2 or more integers, and apply an operation
 func arithmaticHelperf(equation func(float64, float64) float64) KeyBuilderFunction {
 	return KeyBuilderFunction(func(args []KeyBuilderStage) (KeyBuilderStage, error) {
